@@ -54,7 +54,7 @@ class DefFun:
         params, fcs, tmpl = self._templates[key]
         subs = [(params[i], args[i]) for i in range(len(params)) if i != self.principal]
         subs += list(zip(fcs, field_terms))
-        return z3.substitute(tmpl, *subs) if subs else tmpl
+        return z3.simplify(z3.substitute(tmpl, *subs)) if subs else tmpl
 
     def rec(self):
         if self._rec is None:
@@ -71,6 +71,43 @@ class DefFun:
 
 
 _MODE = {"rec": False}
+_ALLPREDS = {}
+
+
+class AllPred:
+    """all(seq) : every element of a sequence satisfies elem(t).  Definition
+           all(q)  <=>  forall i. 0 <= i < len(q) => elem(q[i])
+    used only through *instances* (z3's quantifier handling over sequences returns unknown, measured):
+      (=>)  all(q) => (0 <= i < len(q) => elem(q[i]))        for index terms i of interest
+      (<=)  all(q) \/ (0 <= k_q < len(q) /\ not elem(q[k_q]))  with a fresh skolem k_q per sequence term
+    Both are consequences of the definition, so `unsat` stays sound; no induction over sequences is
+    needed for append / prefix / tail / indexing."""
+
+    def __init__(self, name, seq_sort, elem_fn):
+        self.name = name
+        self.elem_fn = elem_fn
+        self.uf = z3.Function(name, seq_sort, z3.BoolSort())
+        _ALLPREDS[name] = self
+
+    def __call__(self, q):
+        if _MODE["rec"]:
+            return self.rec()(q)
+        return self.uf(q)
+
+    def rec(self):
+        if not hasattr(self, "_rec"):
+            sort = self.uf.domain(0)
+            self._rec = z3.RecFunction(self.name + "!rec", sort, z3.BoolSort())
+            q = z3.Const(f"q!{self.name}", sort)
+            n = z3.Length(q)
+            old = _MODE["rec"]
+            _MODE["rec"] = True
+            try:
+                body = z3.If(n == 0, z3.BoolVal(True), z3.And(self.elem_fn(q[0]), self._rec(z3.SubSeq(q, 1, n - 1))))
+            finally:
+                _MODE["rec"] = old
+            z3.RecAddDefinition(self._rec, [q], body)
+        return self._rec
 
 
 def _headed(t):
@@ -89,7 +126,7 @@ def _headed(t):
     return False
 
 
-def _apps(t, acc, seen):
+def _apps(t, acc, seen, allacc=None):
     if t.get_id() in seen:
         return
     seen.add(t.get_id())
@@ -99,10 +136,16 @@ def _apps(t, acc, seen):
             df = _REGISTRY.get(d.name())
             if df is not None and df.ready and df.uf.eq(d):
                 acc.append((df, t))
+            elif allacc is not None:
+                ap = _ALLPREDS.get(d.name())
+                if ap is not None and ap.uf.eq(d):
+                    allacc.append((ap, t))
+        if allacc is not None and d.kind() == z3.Z3_OP_SEQ_CONCAT and t.num_args() >= 2:
+            allacc.append((None, t))
         for i in range(t.num_args()):
-            _apps(t.arg(i), acc, seen)
+            _apps(t.arg(i), acc, seen, allacc)
     elif z3.is_quantifier(t):
-        _apps(t.body(), acc, seen)
+        _apps(t.body(), acc, seen, allacc)
 
 
 def _asserted_testers(formulas, acc):
@@ -162,6 +205,10 @@ class Unfolder:
         self.testers = {}
         self.count = 0
         self._pinfo = {}
+        self.all_apps = {}          # AllPred application id -> (pred, app, skolem)
+        self.all_done = set()
+        self.prefix_lens = {}       # concat term id -> lengths of its proper prefixes (index offsets)
+        self._allnew = []
 
     def add(self, formulas):
         out = []
@@ -169,8 +216,9 @@ class Unfolder:
         frontier = list(formulas)
         for r in range(self.rounds):
             for f in frontier:
-                _apps(f, self.apps, self.walked)
-            frontier = []
+                _apps(f, self.apps, self.walked, self._allnew)
+            frontier = self._all_instances()
+            out.extend(frontier)
             keep = []
             for df, app in self.apps:
                 aid = app.get_id()
@@ -211,6 +259,75 @@ class Unfolder:
                 break
             _asserted_testers(frontier, self.testers)
         return out
+
+
+def _constructed(q):
+    q = z3.simplify(q) if False else q
+    if not z3.is_app(q):
+        return False
+    return q.decl().kind() in (z3.Z3_OP_SEQ_CONCAT, z3.Z3_OP_SEQ_EXTRACT, z3.Z3_OP_SEQ_UNIT, z3.Z3_OP_SEQ_EMPTY,
+                               z3.Z3_OP_ITE)
+
+
+def _subterm_ids(t, acc):
+    if t.get_id() in acc:
+        return acc
+    acc.add(t.get_id())
+    if z3.is_app(t):
+        for i in range(t.num_args()):
+            _subterm_ids(t.arg(i), acc)
+    return acc
+
+
+def _all_instances(self):
+    """Instances of the AllPred definitions for the applications collected so far.
+    * all(q) with q *constructed* (concat / extract / unit / empty): the skolemised (<=) direction;
+    * all(b) with b a base sequence (input constant, accessor term): (=>) instances at 0, len-1 and at
+      the indices k, k+1, k - len(prefix) of every constructed sequence that contains b."""
+    new = self._allnew
+    self._allnew = []
+    for ap, t in new:
+        if ap is None:
+            acc = None
+            for i in range(t.num_args() - 1):
+                a = t.arg(i)
+                acc = z3.Length(a) if acc is None else acc + z3.Length(a)
+                self.prefix_lens.setdefault(t.get_id(), []).append(z3.simplify(acc))
+            continue
+        if t.get_id() not in self.all_apps:
+            q = t.arg(0)
+            k = z3.FreshConst(z3.IntSort(), "k_" + ap.name) if _constructed(q) else None
+            self.all_apps[t.get_id()] = (ap, t, k, _subterm_ids(q, set()) if k is not None else None)
+    out = []
+    cons = [(ap, t, k, sub) for (ap, t, k, sub) in self.all_apps.values() if k is not None]
+    for aid, (ap, t, k, sub) in self.all_apps.items():
+        q = t.arg(0)
+        L = z3.Length(q)
+        if k is not None:
+            if (aid, "sk") not in self.all_done:
+                self.all_done.add((aid, "sk"))
+                out.append(z3.Or(t, z3.And(0 <= k, k < L, z3.Not(ap.elem_fn(q[k])))))
+            # a constructed sequence in a hypothesis: elements at its ends
+            idxs = [z3.IntVal(0), L - 1]
+        else:
+            idxs = [z3.IntVal(0), L - 1]
+            for ap2, t2, k2, sub2 in cons:
+                if q.get_id() in sub2:
+                    idxs += [k2, k2 + 1]
+                    for cid, offs in self.prefix_lens.items():
+                        if cid in sub2:
+                            idxs += [k2 - o for o in offs]
+        for i in idxs:
+            i = z3.simplify(i)
+            key = (aid, i.get_id())
+            if key in self.all_done:
+                continue
+            self.all_done.add(key)
+            out.append(z3.Implies(z3.And(t, 0 <= i, i < L), ap.elem_fn(q[i])))
+    return out
+
+
+Unfolder._all_instances = _all_instances
 
 
 def unfold_closure(formulas, rounds=3, done=None, limit=400):
